@@ -72,6 +72,7 @@ type PredSpec struct {
 	Params  []VarDecl
 	Result  string // Go type text; "bool" for pred
 	Body    Expr   // nil => uninterpreted
+	Heap    bool   // heap-dependent recursive spec function (encoded over explicit heap arguments)
 	File    string
 	Line    int
 }
@@ -81,7 +82,15 @@ type AxiomSpec struct {
 	PkgName string
 }
 
+type TypeInvSpec struct {
+	Var     string
+	Type    string // type name (no package)
+	PkgName string
+	Clause  *Clause
+}
+
 type Specs struct {
+	TypeInvs map[string]*TypeInvSpec // pkg.Type
 	Funcs  map[string]*FuncSpec
 	Preds  map[string]*PredSpec // by name and by pkg.name
 	Axioms []*AxiomSpec
@@ -89,10 +98,11 @@ type Specs struct {
 }
 
 func NewSpecs() *Specs {
-	return &Specs{Funcs: map[string]*FuncSpec{}, Preds: map[string]*PredSpec{}}
+	return &Specs{Funcs: map[string]*FuncSpec{}, Preds: map[string]*PredSpec{}, TypeInvs: map[string]*TypeInvSpec{}}
 }
 
 var labelRe = regexp.MustCompile(`^([A-Za-z_][A-Za-z0-9_\-]*):\s+(.*)$`)
+var typeinvRe = regexp.MustCompile(`^\(\s*(\w+)\s+\*(\w+)\s*\)\s*=\s*(.*)$`)
 var funcHdrRe = regexp.MustCompile(`^func\s+(?:\(\s*(\w+)?\s*(\*?)\s*([\w]+)\s*\)\s*)?([\w$]+)\s*$`)
 
 type rawLine struct {
@@ -166,9 +176,12 @@ func (sp *Specs) LoadSpecFile(path, pkgName string) {
 		switch word {
 		case "package":
 			pkgName = rest
-		case "pred", "spec":
+		case "pred", "spec", "heapspec":
 			cur = nil
 			ps, err := parsePredHeader(rest, word == "pred")
+			if ps != nil && word == "heapspec" {
+				ps.Heap = true
+			}
 			if err != nil {
 				errf(l, "%v", err)
 				continue
@@ -179,6 +192,17 @@ func (sp *Specs) LoadSpecFile(path, pkgName string) {
 			sp.Preds[ps.Name] = ps
 			if pkgName != "" {
 				sp.Preds[pkgName+"."+ps.Name] = ps
+			}
+		case "typeinv":
+			cur = nil
+			m := typeinvRe.FindStringSubmatch(rest)
+			if m == nil {
+				errf(l, "bad typeinv header")
+				continue
+			}
+			c := mkClause(l, m[3])
+			if c != nil {
+				sp.TypeInvs[pkgName+"."+m[2]] = &TypeInvSpec{Var: m[1], Type: m[2], PkgName: pkgName, Clause: c}
 			}
 		case "axiom":
 			cur = nil
